@@ -7,7 +7,8 @@
 (*                                                                         *)
 (* argv: [fmt, kind, withp, fault]                                          *)
 (*   kind  : what -t names: "file" (name with the format's own extension), *)
-(*           "file_foreign_ext", "file_other_ext" (a name with the         *)
+(*           "file_foreign_ext", "file_no_ext" (a name without extension), *)
+(*           "file_other_ext" (a name with the                             *)
 (*           extension of ANOTHER registered packager), "dir", "dir_slash",*)
 (*           "symlink_dir", "empty"                                        *)
 (*           (no -t), "devfull" (a name whose writes fail), "existing_larger"*)
@@ -20,7 +21,7 @@ EXTENDS Integers, Sequences, FiniteSets, TLC, Json
 
 CONSTANT CliDeviations   \* "NoRemoveOnError": the partial file is left behind; "RemoveWrongPath": cleanup uses the -t argument, not the resolved path
 
-Kinds == {"file", "file_foreign_ext", "file_other_ext", "dir", "dir_slash", "symlink_dir", "empty", "devfull", "existing_larger"}
+Kinds == {"file", "file_foreign_ext", "file_other_ext", "file_no_ext", "dir", "dir_slash", "symlink_dir", "empty", "devfull", "existing_larger"}
 Faults == {"none", "missing_script", "missing_source", "bad_config", "devfull", "missing_key"}
 Signs(f) == f \in {"deb", "rpm", "apk"}
 Fmts == {"deb", "rpm", "apk", "archlinux", "ipk"}
